@@ -28,7 +28,8 @@ def _loop_of(node, fn):
     return None
 
 
-def text_structure(fn, e, depth=0):
+def text_structure(fn, e, depth=0, follow=True):
+    """follow=False: local names are left as variables instead of being expanded through their definitions."""
     if depth > 12:
         return [("var", norm(e))]
     if isinstance(e, ast.Constant) and isinstance(e.value, str):
@@ -40,14 +41,16 @@ def text_structure(fn, e, depth=0):
                 if v.value:
                     out.append(("lit", str(v.value)))
             elif isinstance(v, ast.FormattedValue) and v.conversion == -1 and v.format_spec is None:
-                out += text_structure(fn, v.value, depth + 1)
+                out += text_structure(fn, v.value, depth + 1, follow)
             else:
                 out.append(("var", norm(v)))
         return out
     if isinstance(e, ast.BinOp) and isinstance(e.op, ast.Add):
-        return text_structure(fn, e.left, depth + 1) + text_structure(fn, e.right, depth + 1)
+        return text_structure(fn, e.left, depth + 1, follow) + text_structure(fn, e.right, depth + 1, follow)
     if isinstance(e, ast.IfExp):
-        return [("alt", [text_structure(fn, e.body, depth + 1), text_structure(fn, e.orelse, depth + 1)])]
+        return [("alt", [text_structure(fn, e.body, depth + 1, follow), text_structure(fn, e.orelse, depth + 1, follow)])]
+    if isinstance(e, ast.Name) and not follow:
+        return [("var", e.id)]
     if isinstance(e, ast.Name):
         inits = [st for st in walk_no_nested(fn) if isinstance(st, ast.Assign) and len(st.targets) == 1 and isinstance(st.targets[0], ast.Name) and st.targets[0].id == e.id]
         augs = [st for st in walk_no_nested(fn) if isinstance(st, ast.AugAssign) and isinstance(st.target, ast.Name) and st.target.id == e.id and isinstance(st.op, ast.Add)]
@@ -89,7 +92,7 @@ def text_structure(fn, e, depth=0):
                 return out
         if isinstance(g, (ast.GeneratorExp, ast.ListComp)) and len(g.generators) == 1 and not g.generators[0].ifs:
             gen = g.generators[0]
-            return [("repeat", norm(gen.iter), _targets(gen.target), text_structure(fn, g.elt, depth + 1), sep)]
+            return [("repeat", norm(gen.iter), _targets(gen.target), text_structure(fn, g.elt, depth + 1, follow), sep)]
         return [("var", norm(e))]
     if isinstance(e, ast.Call) and isinstance(e.func, ast.Attribute) and e.func.attr == "format" and isinstance(e.func.value, ast.Constant) and isinstance(e.func.value.value, str) \
             and not any(isinstance(a, ast.Starred) for a in e.args) and not any(k.arg is None for k in e.keywords):
@@ -110,7 +113,7 @@ def text_structure(fn, e, depth=0):
                     arg = e.args[int(field)]
                 else:
                     arg = next(k.value for k in e.keywords if k.arg == field)
-                out += text_structure(fn, arg, depth + 1)
+                out += text_structure(fn, arg, depth + 1, follow)
         except (IndexError, StopIteration, ValueError):
             return [("var", norm(e))]
         return out
@@ -159,3 +162,19 @@ def literal_prefix(parts) -> str:
             out += common
         break
     return out
+
+
+def render(parts, placeholder="x") -> str:
+    """One concrete instance of the described text: variables become `placeholder`, a repetition is rendered once, the first
+    alternative is taken."""
+    out = []
+    for p in parts:
+        if p[0] == "lit":
+            out.append(p[1])
+        elif p[0] == "var":
+            out.append(placeholder)
+        elif p[0] == "repeat":
+            out.append(render(p[3], placeholder))
+        elif p[0] == "alt":
+            out.append(render(p[1][0], placeholder) if p[1] else "")
+    return "".join(out)
